@@ -419,8 +419,157 @@ def run_core(ctx, i, rng, log):
     ctx.check(snap.diff(before, snap.snap(h1)) is None, 'input_unchanged:core.apply', lambda: dict(case=desc))
 
 
+_BOUND = {}
+
+
+def bound_classes():
+  if _BOUND:
+    return _BOUND
+  import flax.linen as nn
+  import jax.numpy as jnp
+
+  class Leaf(nn.Module):
+    @nn.compact
+    def __call__(self, x):
+      w = self.param('w', nn.initializers.normal(1.0), (x.shape[-1],))
+      n = self.variable('counter', 'n', lambda: jnp.zeros((), jnp.float32))
+      y = x * w + n.value
+      n.value = n.value + 1.0
+      return y
+
+  class Node1(nn.Module):
+    a: nn.Module
+
+    @nn.compact
+    def __call__(self, x):
+      x = self.a(x)
+      return x + self.param('b', nn.initializers.normal(1.0), (x.shape[-1],))
+
+  class Node2(nn.Module):
+    a: nn.Module
+    b: nn.Module
+
+    def __call__(self, x):
+      return self.b(self.a(x))
+
+  class Node3(nn.Module):
+    a: nn.Module
+    b: nn.Module
+    c: nn.Module
+
+    @nn.compact
+    def __call__(self, x):
+      n = self.variable('counter', 'calls', lambda: jnp.zeros((), jnp.float32))
+      n.value = n.value + 1.0
+      return self.c(self.b(self.a(x))) * (1.0 + 0.125 * n.value)
+
+  _BOUND.update(Leaf=Leaf, Node1=Node1, Node2=Node2, Node3=Node3)
+  return _BOUND
+
+
+def gen_attr_tree(rng, depth, shared):
+  """('leaf',) | ('node', n_fields, [children]) - children are attribute sub-modules; `shared` collects leaves for reuse."""
+  if depth == 0 or rng.random() < 0.2:
+    if shared and rng.random() < 0.25:
+      return ('shared', rng.randrange(len(shared)))
+    return ('leaf',)
+  k = rng.choice([1, 2, 2, 3])
+  kids = [gen_attr_tree(rng, depth - 1, shared) for _ in range(k)]
+  # put the deepest branch first or last: field order decides which attribute is cloned first
+  if rng.random() < 0.5:
+    kids.sort(key=lambda t: -_tree_depth(t))
+  return ('node', k, kids)
+
+
+def _tree_depth(t):
+  return 0 if t[0] != 'node' else 1 + max(_tree_depth(c) for c in t[2])
+
+
+def build_attr_tree(t, shared_objs):
+  C = bound_classes()
+  if t[0] == 'leaf':
+    return C['Leaf']()
+  if t[0] == 'shared':
+    return shared_objs[t[1]]
+  kids = [build_attr_tree(c, shared_objs) for c in t[2]]
+  return C['Node%d' % t[1]](*kids)
+
+
+def run_bound_objects(ctx, i, rng):
+  """init/apply called on module OBJECTS with a history: bound (read-only / mutable), returned by unbind(), or built around a bound
+  sub-module. The result may depend on the variables passed in only, and nothing may be written into the old binding."""
+  import jax
+  import jax.numpy as jnp
+  from flax.core import unfreeze
+  C = bound_classes()
+  shared_objs = [C['Leaf']() for _ in range(2)]
+  t = gen_attr_tree(rng, rng.choice([1, 2, 2, 3]), shared_objs)
+  if t[0] != 'node':
+    t = ('node', 1, [t])
+  desc = dict(tree=repr(t), depth=_tree_depth(t))
+  with ctx.case('bound', i, desc, nontrivial=_tree_depth(t) >= 2):
+    make = lambda: build_attr_tree(t, shared_objs)  # noqa: E731
+    top = make()
+    x = jnp.asarray(np.random.default_rng(i).uniform(-1, 1, (2, 3)).astype(np.float32))
+    v1 = unfreeze(top.init(jax.random.key(2 * i + 1), x))
+    v2 = unfreeze(top.init(jax.random.key(2 * i + 2), x))
+    v1['counter'] = jax.tree_util.tree_map(lambda a: a + 100.0, v1['counter'])
+    v2_snap = jax.tree_util.tree_map(np.array, v2)
+    ref = top.apply(v2, x, mutable=['counter'])
+    key = jax.random.key(77 + i)
+    ref_init = unfreeze(make().init(key, x))
+
+    def same(a, b):
+      a, b = unfreeze(a), unfreeze(b)
+      return tree_bytes_equal(a, b)
+
+    objects = []
+    b_rw = top.bind(v1, mutable=['counter'])
+    objects.append(('bound_mutable', b_rw, b_rw))
+    b_ro = top.bind(v1)
+    objects.append(('bound_readonly', b_ro, b_ro))
+    b_src = top.bind(v1, mutable=['counter'])
+    unb, unb_vars = b_src.unbind()
+    ctx.check(same(unb_vars, v1), 'bound:unbind_variables', lambda: dict(case=desc))
+    objects.append(('unbound_via_unbind', unb, b_src))
+    # a new parent built around a sub-module taken from a bound tree
+    b_par = top.bind(v1, mutable=['counter'])
+    inner = b_par.a
+    wrapped = C['Node1'](inner)
+    wv1 = unfreeze(C['Node1'](build_attr_tree(t[2][0], shared_objs)).init(jax.random.key(5), x))
+    wref = C['Node1'](build_attr_tree(t[2][0], shared_objs)).apply(wv1, x, mutable=['counter'])
+    for tag, obj, owner in objects + [('parent_of_bound_submodule', wrapped, b_par)]:
+      ctx.op('apply on ' + tag)
+      before = jax.tree_util.tree_map(np.array, unfreeze(owner.variables))
+      vv, rr = (wv1, wref) if tag == 'parent_of_bound_submodule' else (v2, ref)
+      outs = []
+      try:
+        for _ in range(2):
+          outs.append(obj.apply(vv, x, mutable=['counter']))
+      except Exception as e:  # noqa: BLE001
+        ctx.check(False, 'bound:apply_raises:' + tag, dict(case=desc, error=repr(e)[:300]))
+        continue
+      ctx.check(same(outs[0][0], rr[0]) and same(outs[0][1], rr[1]), 'bound:result_depends_on_old_binding:' + tag,
+                lambda: dict(case=desc, got=np.asarray(outs[0][0]).tolist(), want=np.asarray(rr[0]).tolist(),
+                             got_state=repr(unfreeze(outs[0][1]))[:300], want_state=repr(unfreeze(rr[1]))[:300]))
+      ctx.check(same(outs[0], outs[1]), 'deterministic:bound_object:' + tag, lambda: dict(case=desc))
+      ctx.check(same(unfreeze(owner.variables), before), 'bound:old_binding_written:' + tag,
+                lambda: dict(case=desc, before=repr(before.get('counter'))[:300], after=repr(unfreeze(owner.variables).get('counter'))[:300]))
+    ctx.check(same(v2, v2_snap), 'input_unchanged:variables:bound_object', lambda: dict(case=desc))
+    for tag, obj in (('bound_mutable', top.bind(v1, mutable=True)), ('unbound_via_unbind', unb)):
+      try:
+        got = unfreeze(obj.init(key, x))
+      except Exception as e:  # noqa: BLE001
+        ctx.check(False, 'bound:init_raises:' + tag, dict(case=desc, error=repr(e)[:300]))
+        continue
+      ctx.op('init on ' + tag)
+      ctx.check(same(got, ref_init), 'bound:init_depends_on_old_binding:' + tag, lambda: dict(case=desc))
+
+
 def run(ctx):
   log = PutLog(ctx)
+  for i in ctx.indices(60 if ctx.tier == 'quick' else 600, 'bound'):
+    run_bound_objects(ctx, i, ctx.rng('bound', i))
   n = 400 if ctx.tier == 'quick' else 6000
   for i in ctx.indices(n, 'case'):
     run_case(ctx, i, ctx.rng('case', i), log)
